@@ -764,7 +764,23 @@ func originPredicateCheck(c *Ctx, fn *ssa.Function, origin *ssa.Parameter, depth
 			if infeasible {
 				continue
 			}
-			ok, why := justifiedBlock(pr, union(extra, edgeFacts(pr, b)), depth+1)
+			// ... and where the edge carries a computed value, that value is what the phi is known to be
+			viaPhi := map[condFact]bool{}
+			for f := range known {
+				if ph, ok := f.Cond.(*ssa.Phi); ok && ph.Block() == b && k < len(ph.Edges) {
+					if _, isC := constBool(ph.Edges[k]); !isC {
+						addCondFacts(viaPhi, ph.Edges[k], f.Pol)
+					}
+				}
+			}
+			if len(viaPhi) > 0 {
+				deriveFacts(viaPhi)
+				if ok, why := sufficient(viaPhi); ok {
+					reason = why
+					continue
+				}
+			}
+			ok, why := justifiedBlock(pr, union(extra, viaPhi, edgeFacts(pr, b)), depth+1)
 			if !ok {
 				return false, why
 			}
